@@ -36,6 +36,7 @@ pub fn reproducers() -> Vec<(&'static str, String, usize, &'static str, String)>
     v.push(("F47-reference-order-comparison", known(super::sig::F47), 2, "r >= NULL compiles", p("  r : REF_TO INT;\n  b : BOOL;\n", "  b := r >= NULL;\n")));
     v.push(("F48-ampersand-unchecked", pass(), 2, "BOOL & BOOL stays accepted and runs (uint & FALSE is now a compile error, i.e. outside the domain)", p("  a : BOOL := TRUE;\n  b : BOOL;\n", "  b := a & (NOT b);\n")));
     v.push(("F49-fb-var-temp-in-method", known(super::sig::F49), 2, "an FB's VAR_TEMP used in one of its methods compiles", "FUNCTION_BLOCK FB\nVAR_TEMP\n  tmp : DINT;\nEND_VAR\nMETHOD PUBLIC M : DINT\n  M := tmp;\nEND_METHOD\nEND_FUNCTION_BLOCK\n\nPROGRAM Main\nVAR\n  fb : FB;\n  x : DINT;\nEND_VAR\n  x := fb.M();\nEND_PROGRAM\n".to_string()));
+    v.push(("F50-unary-minus-on-unsigned", pass(), 2, "-u with u : UINT = 0 is 0; with u <> 0 it must be Overflow like UINT#0 - u", p("  u : UINT;\n  y : UINT;\n  b : BOOL;\n", "  y := -u;\n  b := -u < UINT#1;\n  u := UINT#3;\n  y := -u;\n")));
     v.push(("F4-identifier-case", known(super::sig::F4), 2, "identifier written in another case", p("  Counter : INT;\n  y : INT;\n", "  y := counter + INT#1;\n")));
     v.push(("F5-mixed-signedness", known(super::sig::F5), 2, "INT < UINT with a negative INT", p("  a : INT := INT#-1;\n  b : UINT := UINT#1;\n  c : BOOL;\n", "  c := a < b;\n")));
     v.push(("F23-int-pow-negative", known(super::sig::F23), 2, "INT ** negative", p("  a : INT := INT#2;\n  b : INT := INT#-1;\n  c : INT;\n", "  c := a ** b;\n")));
